@@ -73,5 +73,6 @@ UNIT = Unit(
     "U-prepass", "u_prepass/skeleton.rs",
     items=ur.COMMON + uev.SYMS + [is_unknown, ur.eval_simple_stub, rcs, iter_new, next_simple, rcss],
     serves=["C15", "C16", "C03"],
+    carry_facts_into_loops=False,   # this unit's proofs need isolated loops (loop `ensures` clauses, or the solver runs out of resources with the wider context)
     description="asm::resolver::resolve_constants_simple / resolve_constant_simple: the address-free pre-pass over constants",
 )
